@@ -3,13 +3,14 @@ PROP = {
     "coq_targets": ["Properties/C34.vo", "Extract/C34Extract.vo"],
     "properties_file": "Properties/C34.v",
     "theorems": ["C34_roundtrip", "C34_hidden_stays_hidden_refuted", "C34_hidden_stays_hidden_partial",
-                 "C34_unnamed_reason_reported_visible", "C34_api_hidden_comes_back_hidden", "C34_visible_stays_visible"],
+                 "C34_unnamed_reason_reported_visible", "C34_api_hidden_comes_back_hidden", "C34_visible_stays_visible",
+                 "C34_history_independent", "C34_roundtrip_history"],
     "allowed_axioms": [],
     "harness": "c34",
     "modelrun": {"name": "c34", "extracted": ["c34_model"], "driver": "ocaml/c34/c34_run.ml"},
-    "tiers": {"quick": {"cases": 30000}, "thorough": {"cases": 600000}},
-    "search_cases": 100000,
-    "rule": "routes with 0-3 paths (static / BGP), IPv4 and IPv6 prefixes, next hops and sources, every BGP field drawn from "
+    "tiers": {"quick": {"cases": 6000}, "thorough": {"cases": 40000}},
+    "search_cases": 12000,
+    "rule": "a case is a sequence of conversions (ToProto, RouteFromProtoRoute with the case's dedup flag) made one after the other in the harness process: 4 of 5 cases one route, 1 of 5 a base route followed by one variant per attribute of the property (MED, LOCAL_PREF, ORIGIN, next hop, source, communities, large communities, CLUSTER_LIST, unknown attributes, AS_PATH, BGP identifier, ORIGINATOR_ID, eBGP, OTC, path id, post-policy, hidden reason, prefix, unchanged) differing from the base in exactly that attribute, dedup on in 70% of the sequences, off in 10%, mixed in 20%; every conversion is judged by the spec oracle and compared with the model whose cache state is threaded through the whole run; routes: routes with 0-3 paths (static / BGP), IPv4 and IPv6 prefixes, next hops and sources, every BGP field drawn from "
             "boundary values and random 32-bit values, every list attribute nil / empty / 1-4 elements, AS paths of 0-3 segments "
             "(sets, sequences, empty segments), 0-3 unknown attributes, hidden reasons 0-8 and 255, dedup on/off; 8% malformed routes "
             "(missing prefix / attribute block / next hop / source, foreign path or segment types) only for the model tie; "
